@@ -13,7 +13,7 @@ from droop.profile import ElectionProfile, ElectionProfileError
 
 ID = 'C15'
 LEVEL = 'exploration'
-N = {'quick': 24000, 'thorough': 800000}
+N = {'quick': 24000, 'thorough': 300000}
 RULE = ('election structures with every BLT feature drawn at random (nicknames, tie, withdrawn by both syntaxes, undeclared, ballot ids, equal '
         'ranks, source/comment strings, names containing comment markers / brackets / digits / non-ASCII, BOM through path=), valid by '
         'construction, rendered with random token layout and comments; candidate counts include 255/256/257 (and 65535/65536 in the thorough '
